@@ -26,7 +26,9 @@ func (e *Ext) Decoded() []Atom {
 			case *ssa.Store:
 				as = e.decStore(x, names)
 			case *ssa.Call:
-				if a := e.decCall(x, names); a != nil {
+				if img := e.decBinaryImage(x, names); img != nil {
+					as = img
+				} else if a := e.decCall(x, names); a != nil {
 					as = []*Atom{a}
 				}
 			}
@@ -1031,4 +1033,65 @@ func (e *Ext) combineBytes(bo *ssa.BinOp, at ssa.Instruction, names map[ssa.Valu
 	}
 	off := *first.OffForm
 	return &Atom{Kind: "fixed", Width: n, Order: order, Stream: first.Stream, Off: e.renderForm(off, names), OffForm: &off, Pos: bo.Pos()}
+}
+
+// decBinaryImage: binary.Decode(buf, order, &recv.F) (or the receiver itself)
+// fills the fields of a struct that lives in the receiver from consecutive
+// fixed-width windows of buf, in declaration order (documented contract of
+// encoding/binary). One atom per field.
+func (e *Ext) decBinaryImage(call *ssa.Call, names map[ssa.Value]string) []*Atom {
+	cc := call.Common()
+	if prove.StaticName(cc) != "encoding/binary.Decode" || len(cc.Args) != 3 {
+		return nil
+	}
+	ord := ""
+	switch loadedGlobalName(cc.Args[1]) {
+	case "encoding/binary.LittleEndian":
+		ord = "LE"
+	case "encoding/binary.BigEndian":
+		ord = "BE"
+	default:
+		return nil
+	}
+	data := cc.Args[2]
+	if mi, ok := data.(*ssa.MakeInterface); ok {
+		data = mi.X
+	}
+	base, ok := e.FieldPath(data)
+	if !ok {
+		return nil
+	}
+	st, ok := deref(data.Type()).Underlying().(*types.Struct)
+	if !ok {
+		return nil
+	}
+	c := e.FI.CtxBefore(call)
+	root, off := e.rootBuf(cc.Args[0], c)
+	if !isBufferLike(root) {
+		return nil
+	}
+	var out []*Atom
+	run := off
+	for i := 0; i < st.NumFields(); i++ {
+		f := st.Field(i)
+		w, isArr := imageWidth(f.Type())
+		if w == 0 {
+			return nil
+		}
+		name := f.Name()
+		if base != "" {
+			name = base + "." + name
+		}
+		o := run
+		a := &Atom{Kind: "fixed", Width: w, Order: ord, Field: name, Stream: e.streamName(root), Off: e.renderForm(o, names), OffForm: &o, Pos: call.Pos(), At: call, Type: types.TypeString(f.Type(), shortQ)}
+		if isArr {
+			a.Kind, a.Order = "bytes", ""
+			a.WidthStr = fmt.Sprint(w)
+		} else if w == 1 {
+			a.Order = ""
+		}
+		out = append(out, a)
+		run = run.AddK(int64(w))
+	}
+	return out
 }
